@@ -494,6 +494,87 @@ def field_sweep(ctx, i, jobs):
         jobs.append((pre, terms, info))
 
 
+# ---- repair of files whose segments are larger than the upload default -------------------------------------------
+def large_segment_repair(ctx, i):
+    """A file uploaded with a max segment size above the 1 MiB default and larger than it (segment size > 1 MiB),
+    some shares deleted, check_and_repair (through the read-cap node or a node made from the verify cap), then:
+    old shares unchanged, verify, delete the OLD shares, verify again and read back -- the shares repair wrote must
+    validate under the original cap on their own."""
+    from core import grid as G
+    from allmydata import uri
+    from allmydata.monitor import Monitor
+    r = ctx.rng("bigseg", i)
+    k, n, size, mss = [(2, 4, 1200000, 1 << 21), (3, 4, 2300001, 1150000), (1, 3, 1100000, 1 << 21), (2, 5, 1500000, 1500000)][i % 4]
+    size += r.randrange(0, 3000)
+    data = r.randbytes(size)
+    seed = r.getrandbits(30)
+    via_verifycap = r.random() < 0.5
+    verify = r.random() < 0.5
+    case = {"i": i, "bigseg": True, "k": k, "n": n, "size": size, "max_segment_size": mss, "seed": seed, "via_verify_cap": via_verifycap, "repair_verify": verify}
+    with G.Grid(num_servers=n + 1, k=k, n=n, happy=1, max_segment_size=mss, seed=seed, timeout=120) as g:
+        cap = g.run(g.upload(data, convergence=b"c45L"))
+        shares = g.find_shares(cap)
+        orig = {s.shnum: C.split_container(g.read_share(s))[1] for s in shares}
+        gone = r.sample(shares, r.randrange(1, n - k + 1))
+        for s in gone:
+            g.delete_share(s)
+        case["deleted"] = sorted(s.shnum for s in gone)
+        before = disk_state(g, cap)
+        if via_verifycap:
+            node = g.client(0).nodemaker._create_immutable_verifier(uri.from_string(cap).get_verify_cap())
+        else:
+            node = C.fresh_node(g, cap)
+        out = g.run(lambda: node.check_and_repair(Monitor(), verify=verify), outcome=True, timeout=120)
+        after = disk_state(g, cap)
+        for key, raw in before.items():
+            if key not in after or C.split_container(after[key])[1] != C.split_container(raw)[1]:
+                ctx.oracle_fail("repair-altered-existing-good-share", "share %d on server %d was good before check_and_repair and is %s after" % (
+                    key[1], key[0], "gone" if key not in after else "different"), case=case)
+        new = sorted(key for key in after if key not in before)
+        same = [key for key in new if C.split_container(after[key])[1] == orig.get(key[1])]
+        ctx.count("repair-new-shares", len(new))
+        ctx.count("repair-new-shares-byte-identical-to-original", len(same))
+        outcome = out.error or out.status
+        if out.status == "ok":
+            crr = out.value
+            outcome = "healthy-no-repair" if not crr.get_repair_attempted() else ("repaired" if crr.get_repair_successful() else "repair-unsuccessful")
+            if not crr.get_repair_attempted():
+                ctx.oracle_fail("repair-not-attempted-on-unhealthy-file", "%d of %d shares deleted but check_and_repair did not repair" % (len(gone), n), case=case)
+            # verify everything that is stored now
+            cr = g.run(lambda: C.fresh_node(g, cap).check(Monitor(), verify=True), outcome=True, timeout=120)
+            if cr.status == "ok":
+                per, agg = results_of(g, cr.value)
+                for key in new:
+                    if per.get(key) != "good":
+                        ctx.oracle_fail("repair-wrote-invalid-share", "repair wrote share %d on server %d; verify=True under the original cap reports it %s (%s the share first uploaded)" % (
+                            key[1], key[0], per.get(key, "absent"), "byte-identical to" if key in same else "different from"), case=case)
+                numbers = set(sh for (_s, sh) in after)
+                if crr.get_repair_successful() and (not agg[0] or len(numbers) != n):
+                    ctx.oracle_fail("repair-reported-successful-without-N-good-shares",
+                                    "check_and_repair reports success; verify=True afterwards: healthy=%s, %d good shares, %d corrupt (N=%d)" % (agg[0], agg[2], agg[4], n), case=case)
+            else:
+                ctx.oracle_fail("verify-after-repair-failed", "check(verify=True) after repair ended with %s" % (cr.error or cr.status), case=case)
+        # the repaired shares alone
+        if new:
+            for s in g.find_shares(cap):
+                if (s.server, s.shnum) in before:
+                    g.delete_share(s)
+            cr = g.run(lambda: C.fresh_node(g, cap).check(Monitor(), verify=True), outcome=True, timeout=120)
+            if cr.status == "ok":
+                per, agg = results_of(g, cr.value)
+                bad = [key for key in new if per.get(key) != "good"]
+                if bad:
+                    ctx.oracle_fail("repaired-shares-alone-do-not-verify", "with the older shares deleted, verify=True reports %d of the %d shares written by repair not good (%s)" % (
+                        len(bad), len(new), sorted(set(per.get(key, "absent") for key in bad))), case=case)
+            if len(set(sh for (_s, sh) in new)) >= k:
+                status, err, chunks = C.read_through(g, C.fresh_node(g, cap), 0, None, timeout=120)
+                if status != "ok" or b"".join(chunks) != data:
+                    ctx.oracle_fail("cannot-read-from-repaired-shares-alone", "with only the %d shares written by repair left, download gives %s" % (
+                        len(new), (err or status) if status != "ok" else "wrong bytes"), case=case)
+                ctx.count("read-from-repaired-shares-alone")
+        ctx.case((k, n, size, mss, tuple(case["deleted"]), via_verifycap, verify), kind="large-segment-repair:" + str(outcome))
+
+
 # ---- files whose UEB disagrees with the cap ------------------------------------------------------------------
 UEB_EDITS = [
     ("size+1", lambda d: d.update(size=d["size"] + 1), False),
@@ -591,6 +672,8 @@ def run(ctx):
         inconsistent_ueb(ctx, i, jobs)
     for i in range(ctx.n(6, 40)):
         field_sweep(ctx, i, jobs)
+    for i in range(ctx.n(2, 12)):
+        large_segment_repair(ctx, i)
     evaluate(ctx, jobs)
 
 
@@ -600,6 +683,9 @@ def replay(ctx, record):
     if "i" not in case:
         return {"note": "record names no case index"}
     jobs = []
+    if case.get("bigseg"):
+        large_segment_repair(ctx, case["i"])
+        return {"i": case["i"]}
     if case.get("sweep"):
         field_sweep(ctx, case["i"], jobs)
     elif "ueb_edit" in case:
